@@ -189,6 +189,8 @@ def search(ctx, disagreements):
         for _ in range(10):
             case = gen(rng)
             r = call_impl(zoo.linearity_oracle, case, rng)
+            if r[0] == "err" and zoo.numerical_limit(fam, r[2]):
+                continue
             if r[0] == "err":
                 found.append({"what": f"{case.name}: raised {r[2][:300]}", "witness": {"family": fam, "case": case.name}})
             elif r[1]:
